@@ -656,6 +656,8 @@ func suiteC01(cfg Config, res *Result, kind string) {
 	if kind == "files" {
 		defer c01CacheAfterFailure(res)
 		defer c01OddKeys(res)
+		defer c01MutatingLoop(res)
+		defer reentrantRegistry(res, "totality", "c01-registry-reentry")
 		defer c01TextIndex(res)
 	}
 	n := map[string]int{"bytes": 20000, "prog": 8000, "paths": 20000, "files": 0}[kind]
